@@ -80,7 +80,7 @@ for pid in sorted(P):
             "evidence_file": f"/verif/evidence/{pid}.json",
             "replay_cmd_template": f"./check {pid} --replay {{path}}",
             "engine": eng,
-            "level_claimed": {"category": "exploration", "text": text, "design_ref": ref},
+            "level_claimed": {"category": ("fault_enumeration" if pid == "C08" else "exploration"), "text": text, "design_ref": ref},
             "level_note": note,
             "technique": tech,
         })
